@@ -101,14 +101,28 @@ func For[V any](
 	return func(c *co[V], k cont[V]) {
 		var loop func(skipPost bool)
 		loop = func(skipPost bool) {
-			if post != nil && !skipPost {
-				post()
-			}
-			if cond == nil || cond() {
+			for {
+				if post != nil && !skipPost {
+					post()
+				}
+				skipPost = false
+				if cond != nil && !cond() {
+					k(kNormal, zero[V]())
+					return
+				}
+				// iterate in place when the body completes synchronously,
+				// so that non-yielding iterations do not nest stack frames;
+				// after a Bind the continuation is resumed from a fresh stack
+				// and starts the loop driver again
+				inBody, again := true, false
 				body(c, func(t contType, v V) {
 					switch t {
 					case kNormal, kContinue:
-						loop(false)
+						if inBody {
+							again = true
+						} else {
+							loop(false)
+						}
 					case kBreak:
 						k(kNormal, zero[V]())
 					case kReturn:
@@ -117,8 +131,10 @@ func For[V any](
 						panic("unreachable")
 					}
 				})
-			} else {
-				k(kNormal, zero[V]())
+				inBody = false
+				if !again {
+					return
+				}
 			}
 		}
 		loop(true)
